@@ -24,7 +24,7 @@ func (fi *FuncInfo) findAtGuard(n ast.Node, recvOK func(ast.Expr) bool, key ast.
 		if !fi.sameExpr(at.Args[0], key) {
 			continue
 		}
-		if !fi.stableBetween(key, at.Pos(), n.Pos()) {
+		if !fi.stableBetween(key, at, n) {
 			continue
 		}
 		return &gs[i], at
